@@ -7,6 +7,7 @@ import IcingaModel.C15.Spec
 import IcingaProofs.Gen.Precedence
 import IcingaProofs.C15.Lemmas
 import IcingaProofs.C15.OpTable
+import IcingaProofs.C15.WfNatives
 
 namespace Icinga.C15.Proofs
 
@@ -88,11 +89,28 @@ theorem deterministic (fuel : Nat) (fr : Frame N) (t : Task N) (st : State N) (r
     (h1 : eval fuel fr t st = r1) (h2 : eval fuel fr t st = r2) : r1 = r2 := by
   rw [← h1, ← h2]
 
-/-- every evaluation returns (the interpreter is total: no program makes it undefined); without fuel it says so. -/
+/-- **Every program ends in a value or an error that the language defines** — never in the model's `Err.internal`
+    (dangling heap address, heap cell of the wrong kind, call of a non-function): for every program and every fuel the heap
+    stays well-formed (every address inside every value, dictionary, array, closure and global points to a cell of the
+    matching kind; cells never change kind; the heap only grows) and the outcome is not an internal error.  The interpreter
+    is a total function, so "returns" needs no proof; without fuel it says so.  Proof: `eval_wf` (C15/WfSteps.lean, induction
+    on fuel over all tasks) with `natives_wf` (C15/WfNatives.lean, all ~45 natives). -/
 theorem total_or_error (fuel : Nat) (prog : List (Expr N)) :
-    (∃ o st, run fuel prog = (o, st)) ∧ (run 0 prog).1 = Out.err Err.fuel := by
-  refine ⟨⟨(run fuel prog).1, (run fuel prog).2, rfl⟩, ?_⟩
-  simp [run, eval]
+    (∀ w, (run fuel prog).1 ≠ Out.err (Err.internal w)) ∧ HeapOk (run fuel prog).2 ∧
+    (run 0 prog).1 = Out.err Err.fuel := by
+  have h := eval_wf (N := N) natives_wf fuel initFrame (.expr (.block prog)) initState initState_ok initFrame_ok trivial
+  refine ⟨?_, h.1, by simp [run, eval]⟩
+  intro w hw
+  have := h.2.2
+  unfold run at hw
+  rw [hw] at this
+  exact this
+
+/-- the same for every task, frame and state that are well-formed (what `total_or_error` instantiates) -/
+theorem no_internal_error (fuel : Nat) (fr : Frame N) (t : Task N) (st : State N)
+    (hs : HeapOk st) (hf : FrOk st fr) (ht : TOk st t) :
+    ROk st (eval fuel fr t st) :=
+  eval_wf natives_wf fuel fr t st hs hf ht
 
 /-- scriptframe.cpp:84-85: an expression entered at frame depth ≥ 300 is not evaluated at all: the outcome is the
     recursion error and the state is untouched — whatever the expression, the frame and the remaining fuel. -/
